@@ -39,8 +39,8 @@ func (r *c31Run) Sample() any { return r }
 func (r *c31Run) Setup(s *sim.Sim) {
 	p := s.Plan
 	s.DrawPolicy()
-	for al := -1; al <= 4; al++ {
-		for ual := -1; ual <= 4; ual++ {
+	for al := -1; al <= 7; al++ {
+		for ual := -1; ual <= 7; ual++ {
 			r.Nodes = append(r.Nodes, c31Node{al, ual})
 		}
 	}
@@ -57,9 +57,9 @@ func (r *c31Run) Setup(s *sim.Sim) {
 		case 9:
 			op.Kind, op.Level = 3, p.Intn(5)
 		case 10: // the server application changes the level through the public Node API
-			op.Kind, op.Level = 4, p.Intn(5)
+			op.Kind, op.Level = 4, p.Intn(8)
 		default:
-			op.Kind, op.Level = 5, p.Intn(5)
+			op.Kind, op.Level = 5, p.Intn(8)
 		}
 		if op.Kind <= 1 && p.Chance(1, 4) {
 			for k := 0; k < 1+p.Intn(3); k++ {
@@ -71,8 +71,15 @@ func (r *c31Run) Setup(s *sim.Sim) {
 }
 
 func c31LevelValue(l int) any {
-	if l == 4 {
-		return uint32(3)
+	switch l {
+	case 4:
+		return uint32(3) // wrong Go type, both bits
+	case 5:
+		return uint32(0) // wrong Go type, no access at all
+	case 6:
+		return int32(1) // wrong Go type, read only
+	case 7:
+		return uint16(2) // wrong Go type, write only
 	}
 	return byte(l)
 }
@@ -85,12 +92,28 @@ func c31Lacks(n *server.Node, flag ua.AccessLevelType) (lacks bool, silent bool)
 		if err != nil || av == nil || av.Value == nil || av.Value.Value == nil {
 			continue
 		}
-		b, ok := av.Value.Value.Value().(uint8)
-		if !ok {
-			continue // wrong type: statement is silent
+		var b uint64
+		switch v := av.Value.Value.Value().(type) {
+		case uint8:
+			b = uint64(v)
+		// an access level stored with another integer type still says what it says: if the
+		// number lacks the bit, access has to be refused (the unchanged server refuses such
+		// nodes altogether, which satisfies this)
+		case uint16:
+			b = uint64(v)
+		case uint32:
+			b = uint64(v)
+		case int32:
+			b = uint64(v)
+		case int64:
+			b = uint64(v)
+		case int:
+			b = uint64(v)
+		default:
+			continue // not a number at all: the statement is silent
 		}
 		silent = false
-		if b&uint8(flag) == 0 {
+		if b&uint64(flag) == 0 {
 			lacks = true
 		}
 	}
